@@ -101,11 +101,14 @@ PROPS = {
     },
     'C01': {
         'steps': [{'script': 'corr_graph.py', 'timeout': 1500, 'timeout_thorough': 6000}],
-        'required_theorems': ['C01_insertion_preserves_wf', 'C01_quantize_tensor_preserves_wf'],
+        'required_theorems': ['C01_insertion_preserves_wf', 'C01_quantize_tensor_preserves_wf',
+                              'C01_transform_graph_preserves_wellformedness',
+                              'C01_generated_instructions_are_exact',
+                              'C01_pipeline_returns_wellformed_subgraphs_or_raises'],
         'rule': GRAPH_RULE,
         'trusted_base': COMMON_TB + GRAPH_TB,
         'assumptions': GRAPH_ASSUME + [
-            'C01 theorems are step-level (one transformation preserves well-formedness under the producer-position precondition); the composition over whole instruction lists is checked by correspondence E + the WF oracle on every generated case, not yet by a global invariant theorem',
+            'composition IS a theorem: the performer\'s global invariant (op-id maps resolve every pending producer reference exactly) is preserved by every step, the instruction generator only emits exact instructions, hence the whole modelled pipeline maps well-formed subgraphs to well-formed subgraphs or raises; NOT yet theorems: opcode/buffer indices in range, unique tensor names, signature entries in range (oracle + correspondence E/E2)',
             'interpreter allocate/invoke is runtime behaviour: validated by execution in a forked child on every returned model quantized with real statistics'],
     },
     'C02': {
